@@ -27,13 +27,13 @@ def run(ctx: Ctx):
         "callee resolution by name over-approximates virtual dispatch inside eyecite; builtin-type methods are classified by the mutator table in sa/fold.py",
     ]
     R = fr.OnlineRules(ctx)
-    R.o1_single_fold()
-    R.o2_single_append_site()
-    R.o3_resolver_provenance()
-    R.o7_body_frame()
-    R.o8_callee_frame()
-    R.o9_no_order_nondeterminism()
-    R.dynamic_features_absent()
+    ctx.guard(R.o1_single_fold)
+    ctx.guard(R.o2_single_append_site)
+    ctx.guard(R.o3_resolver_provenance)
+    ctx.guard(R.o7_body_frame)
+    ctx.guard(R.o8_callee_frame)
+    ctx.guard(R.o9_no_order_nondeterminism)
+    ctx.guard(R.dynamic_features_absent)
     ctx.floor("O1", 3)
     ctx.floor("O2", 8)
     ctx.floor("O3", 10)
